@@ -383,13 +383,13 @@ def sem_rule(ctx: Ctx, imap: dict) -> None:
         beh = m.lookup(c, "behavior")
         key = f"{c.name}.behavior"
         try:
-            got = sorted(x.describe() for x in behavior_cases(m, c))
+            got = sorted(_no_cnt(x).describe() for x in behavior_cases(m, c))
         except Unrecognised as exc:
             r.check(False, key, beh.loc() if beh else c.loc(),
                     f"{k}: behavior() uses a construct outside the semantic vocabulary ({exc}); its effect cannot be "
                     "matched against the ISA table")
             continue
-        want = sorted(ISA[k])
+        want = sorted(_strip_cnt(w) for w in ISA[k])
         r.check(got == want, key, beh.loc() if beh else c.loc(),
                 f"{k}: behavior() computes {got}; the ISA prescribes {want}", {"normal_form": got})
     r.floor(45)
@@ -399,6 +399,17 @@ def sem_rule(ctx: Ctx, imap: dict) -> None:
     for c in m.subclasses(m.cls("RiscvInstruction"), strict=True):
         if "length" in c.assigns:
             r2.check(const_int(c.assigns["length"]) == 4, f"{c.name}.length", c.loc(), f"{c.name} overrides length")
+
+
+def _no_cnt(case):
+    """C01 observes registers, memory, pc, output and exit code -- not the performance counters (C02 does)."""
+    from ..rvnf import Case
+    return Case(case.conds, {k: v for k, v in case.effects.items() if k != "cnt"})
+
+
+def _strip_cnt(row: str) -> str:
+    import re as _re
+    return _re.sub(r"cnt=\([^)]*\)(; )?", "", row)
 
 
 def alias_rule(ctx: Ctx, imap: dict) -> None:
